@@ -6,6 +6,8 @@ import Compress.Proofs.BitIOExact
 import Compress.Proofs.FlateRefine
 import Compress.Proofs.FlatePrefix
 import Compress.Proofs.BzImplCounters
+import Compress.Proofs.FlateApi
+import Compress.Proofs.BzReaderApi
 
 namespace Compress.Props.C11
 open Compress Compress.Prefix Compress.Proofs.PrefixTables Compress.Proofs.BitIOExact
@@ -94,5 +96,24 @@ theorem C11_bzip2_counters (bytes : List UInt8) (sched : List Nat) :
     ((Bzip2.Impl.run bytes sched).err = some .eof →
       (Bzip2.Impl.run bytes sched).final.inOff = bytes.length ∧ (Bzip2.Impl.run bytes sched).final.bits = []) :=
   ⟨(run_outOff bytes sched).1, (run_outOff bytes sched).2, run_inOff_eof bytes sched⟩
+
+/-! ### OutputOffset of flate.Reader and bzip2.Reader at the API (every call sequence) -/
+
+open Compress.Flate.Api in
+/-- **flate.Reader: OutputOffset = bytes delivered since the last Reset**, after every call: from
+    ANY state, a sequence of Reads and Closes moves it by exactly the bytes the Reads returned, and
+    Reset sets it (and InputOffset) to 0. -/
+theorem C11_flate_output_offset (r : Reader) (ops : List Op) (hn : ∀ op ∈ ops, op.noReset = true) (src : Src) :
+    (Reader.run r ops).1.outputOffset = r.outputOffset + Compress.Proofs.FlateApi.delivered (Reader.run r ops).2 ∧
+    (r.reset src).outputOffset = 0 ∧ (r.reset src).inputOffset = 0 :=
+  ⟨Compress.Proofs.FlateApi.run_outputOffset r ops hn, (Compress.Proofs.FlateApi.reset_counters r src).1,
+   (Compress.Proofs.FlateApi.reset_counters r src).2.1⟩
+
+open Compress.Bzip2.ReaderApi in
+/-- **bzip2.Reader: OutputOffset = bytes delivered since the last Reset** (same statement). -/
+theorem C11_bzip2_output_offset (r : Reader) (ops : List Op) (hn : ∀ op ∈ ops, op.noReset = true) (src : Src) :
+    (Reader.run r ops).1.outputOffset = r.outputOffset + Compress.Proofs.BzReaderApi.delivered (Reader.run r ops).2 ∧
+    (r.reset src).outputOffset = 0 ∧ (r.reset src).inputOffset = 0 :=
+  ⟨Compress.Proofs.BzReaderApi.run_outputOffset r ops hn, rfl, rfl⟩
 
 end Compress.Props.C11
